@@ -174,6 +174,23 @@ def check_case(case):
     if not strict_eq(refcodec.reconstruct(r['data'], atts), _l(data)):
         raise Violation('reference-payload', repr(r['data'])[:200])
 
+    # decoding is a function of the frames alone: the same text with other
+    # attachments yields the other attachments (nothing of an earlier
+    # decode is remembered)
+    if atts:
+        other = [b'#' + a[::-1] for a in atts]
+        for use in (atts, other):
+            try:
+                d2 = P.Packet(encoded_packet=text)
+                for a in use:
+                    d2.add_attachment(a)
+            except Exception as e:
+                raise Violation('redecode-raised', repr(e))
+            want2 = refcodec.reconstruct(r['data'], use)
+            if not strict_eq(d2.data, want2):
+                raise Violation('decode-remembers-earlier-packet',
+                                'text %r with attachments %r decoded to %r'
+                                % (text[:80], use, repr(d2.data)[:200]))
     # ---- oracle 1: round trip
     if _norm_ns(nsp) != (nsp or '/'):
         # decoding drops the query string of a namespace: the decoded packet
